@@ -4,8 +4,8 @@ import GarbleVerif.Proofs.BitCore
 
 **Proved (core fragment, all widths, all inputs).** `Bit.bitExpr` / `Bit.bitStmts`
 (Model/BitSem.lean) follow `compile.rs` on Booleans and integers of every width — literals,
-variables, `!`, unary `-`, `+`, `-`, `<`, `>`, `==`, `!=`, `&`, `|`, `^` on Booleans, `&&`, `||`,
-`if`/`else`, blocks with `let` — computing, for given inputs, the value every output wire carries
+variables, `!`, unary `-`, `+`, `-`, `<`, `>`, `<=`, `>=`, `==`, `!=`, `&`, `|`, `^` on Booleans, `&&`,
+`||`, `as` between all these types, `if`/`else`, blocks with `let` — computing, for given inputs, the value every output wire carries
 and the abstract state of the panic record. The operators are the bit-list functions of
 Model/Arith.lean (tied to `CircuitBuilder` by C03/C04, proved exact in Proofs/Arith*.lean).
 
@@ -15,7 +15,7 @@ the encoding of that value and no panic; if they fail, it reports exactly that f
 failing operation: C02 at program level for the fragment). Both directions together: the panic
 flag is set iff the source execution fails.
 
-**Explored (whole language).** Everything outside the fragment (casts, `*`, `/`, `%`, shifts,
+**Explored (whole language).** Everything outside the fragment (`*`, `/`, `%`, shifts,
 bitwise operators on integers, aggregates, `match`, loops, mutation, functions) is compared on
 generated programs on every run: circuit output against `Src.evalStmts`, and — for programs of
 the fragment — against `Bit.bitStmts` as well, which ties the model in this theorem to the code.
